@@ -308,6 +308,17 @@ pub fn run(ctx: &mut Ctx) {
                 report(ctx, &format!("pdu-wire:{}", what), format!("serial {a:#x} is not carried big-endian / not read back by {what} (version {version})"), a, version as u32);
             }
         }
+        // State::inc is the way a cache advances its serial: +1 across the wrap
+        for (i, &a) in vals.iter().enumerate() {
+            let mut st = State::from_parts(i as u16, Serial::from(a));
+            st.inc();
+            evals += 1;
+            let want = a.wrapping_add(1);
+            if u32::from(st.serial()) != want || st.session() != i as u16 || !(st.serial() > Serial::from(a)) {
+                report(ctx, "state-inc", format!("State::inc of serial {a:#x} gave {:#x}, expected {want:#x} (strictly greater, wrapping)", u32::from(st.serial())), a, 1);
+            }
+        }
+        ctx.sig("state inc: boundary and random serials incl. 0xFFFFFFFF");
         ctx.sig("pdu wire: serial notify / serial query / end of data v0,v1,v2 boundary");
         ctx.sig("pdu wire: random serials");
     }
